@@ -50,6 +50,7 @@ class QueueGet(Contract_):
                      "when the loop waits for the next request, the frame under construction is empty or the "
                      "queue is known to hold a request (so the wait returns at once and the batch goes on)")
         q.fields["g_nonempty"] = False
+        q.fields["g_empty_now"] = False       # other tasks may have queued requests meanwhile
         return fresh(ex, REQUEST, "request")
 
 
@@ -61,7 +62,27 @@ class QueueEmpty(Contract_):
         r = fresh(ex, T.Bool, "queue_empty")
         from vc.pyvc.values import mk_bool, lift_bool
         args[0].fields["g_nonempty"] = mk_bool(z3.Not(lift_bool(r)))
+        args[0].fields["g_empty_now"] = r      # holds until the next await
         return r
+
+
+class QueuePut(Contract_):
+    """"in submission order": the queue is first-in first-out and the loop is
+    its only consumer, so a request the loop has taken may go back only onto
+    an EMPTY queue (otherwise it is overtaken by those waiting behind it)"""
+    inline = False
+    loops = {}
+
+    def apply(self, ex, args, kwargs, frame, node):
+        from vc.pyvc.values import lift_bool
+        q = args[0]
+        ex.check("sendloop.submission_order[a taken request goes back only onto an empty queue]",
+                 lift_bool(q.fields.get("g_empty_now", False)),
+                 "send_queue.put / put_nowait inside the send loop: the queue is known to be empty (empty() "
+                 "returned True and no await happened since)")
+        q.fields["g_nonempty"] = True
+        q.fields["g_empty_now"] = False
+        return None
 
 
 class NewPacket(Contract_):
@@ -119,6 +140,8 @@ def _m_ensure_future(ex, args, kw):
 def install():
     REGISTRY["contracts.c12_sendloop:QueueModel.get"] = QueueGet()
     REGISTRY["contracts.c12_sendloop:QueueModel.empty"] = QueueEmpty()
+    REGISTRY["contracts.c12_sendloop:QueueModel.put_nowait"] = QueuePut()
+    REGISTRY["contracts.c12_sendloop:QueueModel.put"] = QueuePut()
     REGISTRY["ebpfcat.ethercat:Packet.__init__"] = NewPacket()
     REGISTRY["ebpfcat.ethercat:EtherCat.process_packet"] = Ship()
 
@@ -130,16 +153,26 @@ class _Q(QueueModel):
     def empty(self):
         pass
 
+    def put_nowait(self, item):
+        pass
+
+    def put(self, item):
+        pass
+
 
 # give the queue model real method objects so that attribute lookup works
 QueueModel.get = _Q.get
 QueueModel.empty = _Q.empty
+QueueModel.put_nowait = _Q.put_nowait
+QueueModel.put = _Q.put
+QueueModel.put_nowait.__qualname__ = "QueueModel.put_nowait"
+QueueModel.put.__qualname__ = "QueueModel.put"
 QueueModel.get.__qualname__ = "QueueModel.get"
 QueueModel.empty.__qualname__ = "QueueModel.empty"
 
 sendloop = Contract(
     EtherCat.sendloop,
-    params=dict(self=T.Obj(EtherCat, send_queue=T.Obj(QueueModel, g_nonempty=T.Const(False)))),
+    params=dict(self=T.Obj(EtherCat, send_queue=T.Obj(QueueModel, g_nonempty=T.Const(False), g_empty_now=T.Const(False)))),
     loops={1: Loop(
         invariant={
             "frame_well_formed": "packet_inv(packet)",
@@ -156,7 +189,7 @@ sendloop = Contract(
             # one -- put it into the frame or fail it -- and not spin
             "no_iteration_without_progress": "pre.sent or sent",
         },
-        modifies={"self.send_queue.g_nonempty": T.Bool,
+        modifies={"self.send_queue.g_nonempty": T.Bool, "self.send_queue.g_empty_now": T.Bool,
                   "dgrams": T.List(T.Tuple(T.Int, T.Int, T.Int)), "packet": PACKET,
                   "sent": T.Bool, "dgram": T.Tuple(T.Enum(ECCmd), T.Bytes, T.Range(0, 255),
                                                    T.Range(-32768, 65535), T.Range(0, 65535)),
